@@ -60,7 +60,13 @@ def line_for(mask, tf, S, C):
 
 # ----------------------------------------------------------------------------- harness | oracle pipeline
 def shard_timeout(n):
-    return 20 + 0.02 * n
+    # generous: the machine may be shared with other checks; a genuine hang is found by isolate() with short timeouts
+    load = 1.0
+    try:
+        load = max(1.0, os.getloadavg()[0] / (os.cpu_count() or 1))
+    except OSError:
+        pass
+    return (40 + 0.05 * n) * min(load, 8.0)
 
 
 def pipe_lines(exe, oracle, lines, jobs=None):
@@ -81,6 +87,8 @@ def pipe_lines(exe, oracle, lines, jobs=None):
             return i, None
         data = '\n'.join(shards[i]) + '\n'
         p = vf.sh(['bash', '-c', 'set -o pipefail; "%s" | "%s"' % (exe, oracle)], input=data, timeout=shard_timeout(len(shards[i])))
+        if getattr(p, 'timed_out', False):       # slow machine or a hang: one retry with four times the budget decides
+            p = vf.sh(['bash', '-c', 'set -o pipefail; "%s" | "%s"' % (exe, oracle)], input=data, timeout=4 * shard_timeout(len(shards[i])))
         return i, p
     with cf.ThreadPoolExecutor(max_workers=jobs) as ex:
         for i, p in ex.map(work, range(len(shards))):
